@@ -61,20 +61,22 @@ ExitEv(r) ==
     /\ UNCHANGED gaVars
 
 (* ---- large boxed constructions on a 256 KiB stack (C15) -------------------- *)
-BigSpec == [default_boxed |-> [n |-> 1048576, pat |-> "const", c |-> 0],
-            generate |-> [n |-> 1048576, pat |-> "mod1000", c |-> 0],
-            box_arr_repeat |-> [n |-> 524288, pat |-> "const", c |-> 7],
-            boxed_from_iter |-> [n |-> 1048576, pat |-> "mod1000", c |-> 0],
-            try_boxed_from_iter |-> [n |-> 524288, pat |-> "mod1000", c |-> 0],
-            boxed_map |-> [n |-> 524288, pat |-> "const", c |-> 3],
-            boxed_clone_into_vec |-> [n |-> 524288, pat |-> "mod1000", c |-> 0]]
+BigSpec == [default_boxed |-> [n |-> 1048576, pat |-> "const", c |-> 0, bytes |-> 8388608],
+            generate |-> [n |-> 1048576, pat |-> "mod1000", c |-> 0, bytes |-> 8388608],
+            box_arr_repeat |-> [n |-> 524288, pat |-> "const", c |-> 7, bytes |-> 4194304],
+            boxed_from_iter |-> [n |-> 1048576, pat |-> "mod1000", c |-> 0, bytes |-> 8388608],
+            try_boxed_from_iter |-> [n |-> 524288, pat |-> "mod1000", c |-> 0, bytes |-> 4194304],
+            boxed_map |-> [n |-> 524288, pat |-> "const", c |-> 3, bytes |-> 4194304],
+            \* few, very large elements (one probe value per element is summarised)
+            generate_bigelem |-> [n |-> 256, pat |-> "mod1000", c |-> 0, bytes |-> 4194304],
+            default_boxed_bigelem |-> [n |-> 384, pat |-> "const", c |-> 0, bytes |-> 3194880]]
 ElemAt(s, i) == IF s.pat = "const" THEN s.c ELSE i % 1000           \* 0-based index i
 SumOf(s) == IF s.pat = "const" THEN (s.c * s.n) % 1000003
             ELSE LET q == s.n \div 1000 r == s.n % 1000 IN (q * 499500 + (r * (r - 1)) \div 2) % 1000003
 BigOK(r) ==
     /\ r.op \in DOMAIN BigSpec
     /\ LET s == BigSpec[r.op] IN
-       /\ r.n = s.n /\ r.bytes = 8 * s.n
+       /\ r.n = s.n /\ r.bytes = s.bytes
        /\ r.first = ElemAt(s, 0) /\ r.mid = ElemAt(s, s.n \div 2) /\ r.last = ElemAt(s, s.n - 1)
        /\ r.sum = SumOf(s)
 
